@@ -17,8 +17,10 @@ package main
 
 import (
 	"bytes"
+	"encoding/binary"
 	"encoding/hex"
 	"fmt"
+	"io"
 	"os"
 	"strconv"
 	"strings"
@@ -332,6 +334,7 @@ func checkGeometry(kind string, gc *geomCase) {
 }
 
 func runGeometry(g *vlib.Rng) {
+	runChunkRead(g)
 	type sel struct{ plen, dsel int }
 	var plan []sel
 	for _, plen := range []int{3, 5, 1} {
@@ -365,5 +368,163 @@ func runGeometry(g *vlib.Rng) {
 				checkGeometry("gen", gc)
 			}
 		}
+	}
+}
+
+// ---------------------------------------------------------------- btc.ReadVLen on a reader that returns what it has
+
+// capReader serves the i-th Read with at most caps[i]+1 bytes (all that is asked for once the list is used up): the Go
+// counterpart of Model.UtxoShared.Rd — a bufio.Reader near the end of its buffer, a pipe, a network stream
+type capReader struct {
+	data []byte
+	caps []int
+}
+
+func (c *capReader) Read(p []byte) (int, error) {
+	if len(p) == 0 {
+		return 0, nil
+	}
+	if len(c.data) == 0 {
+		return 0, io.EOF
+	}
+	n := len(p)
+	if len(c.caps) > 0 {
+		if c.caps[0]+1 < n {
+			n = c.caps[0] + 1
+		}
+		c.caps = c.caps[1:]
+	}
+	if n > len(c.data) {
+		n = len(c.data)
+	}
+	copy(p, c.data[:n])
+	c.data = c.data[n:]
+	return n, nil
+}
+
+type chunkCase struct {
+	Data []byte
+	Caps []int
+}
+
+func (cc *chunkCase) replay() map[string]interface{} {
+	l := []interface{}{}
+	for _, c := range cc.Caps {
+		l = append(l, c)
+	}
+	return map[string]interface{}{"kind": "chunkread", "hex": hex.EncodeToString(cc.Data), "caps": l}
+}
+
+func chunkFromJSON(m map[string]interface{}) *chunkCase {
+	cc := &chunkCase{}
+	hs, _ := m["hex"].(string)
+	cc.Data, _ = hex.DecodeString(hs)
+	l, _ := m["caps"].([]interface{})
+	for _, x := range l {
+		f, _ := x.(float64)
+		cc.Caps = append(cc.Caps, int(f))
+	}
+	return cc
+}
+
+// what the bytes mean, read in one piece: (value, prefix length, ok)
+func vlenOf(d []byte) (uint64, int, bool) {
+	if len(d) == 0 {
+		return 0, 0, false
+	}
+	switch d[0] {
+	case 0xfd:
+		if len(d) < 3 {
+			return 0, 0, false
+		}
+		return uint64(binary.LittleEndian.Uint16(d[1:])), 3, true
+	case 0xfe:
+		if len(d) < 5 {
+			return 0, 0, false
+		}
+		return uint64(binary.LittleEndian.Uint32(d[1:])), 5, true
+	case 0xff:
+		if len(d) < 9 {
+			return 0, 0, false
+		}
+		return binary.LittleEndian.Uint64(d[1:]), 9, true
+	}
+	return uint64(d[0]), 1, true
+}
+
+func checkChunkRead(kind string, cc *chunkCase) {
+	rep := cc.replay()
+	r.Eval("readvlen-chunked:"+kind, fmt.Sprint(hex.EncodeToString(cc.Data), cc.Caps))
+	rd := &capReader{data: append([]byte{}, cc.Data...), caps: append([]int{}, cc.Caps...)}
+	var v uint64
+	var err error
+	pan := ""
+	func() {
+		defer func() {
+			if e := recover(); e != nil {
+				pan = fmt.Sprint(e)
+			}
+		}()
+		noStderr(func() { v, err = btc.ReadVLen(rd) })
+	}()
+	impl := "err"
+	if pan != "" {
+		impl = "panic"
+	} else if err == nil {
+		impl = fmt.Sprintf("ok %d %d", v, len(rd.data))
+	}
+	want := "err"
+	if wv, n, ok := vlenOf(cc.Data); ok {
+		want = fmt.Sprintf("ok %d %d", wv, len(cc.Data)-n)
+		r.Hit(fmt.Sprintf("readvlen-chunked:prefix-%d-bytes", n))
+	} else {
+		r.Hit("readvlen-chunked:truncated-prefix")
+	}
+	if impl != want {
+		r.PropFail("readvlen-chunked", fmt.Sprintf("ReadVLen on %x served in pieces %v (i-th Read returns at most caps[i]+1 bytes): %s; the bytes say %s (value, bytes left unread)", cc.Data, cc.Caps, impl, want), rep)
+		return
+	}
+	caps := "-"
+	if len(cc.Caps) > 0 {
+		var sb strings.Builder
+		for i, c := range cc.Caps {
+			if i > 0 {
+				sb.WriteByte(',')
+			}
+			sb.WriteString(strconv.Itoa(c))
+		}
+		caps = sb.String()
+	}
+	if m := o.MustAsk("rdvlen " + vlib.Hex(cc.Data) + " " + caps); m != impl {
+		r.TieFail("readvlen-model", fmt.Sprintf("ReadVLen on %x in pieces %v: impl %s model %s", cc.Data, cc.Caps, impl, m), rep)
+		return
+	}
+	r.TieOK()
+}
+
+func runChunkRead(g *vlib.Rng) {
+	n := r.N(400, 8000)
+	for i := 0; i < n; i++ {
+		var d []byte
+		switch g.Intn(5) {
+		case 0:
+			d = []byte{byte(g.Intn(0xfd))}
+		case 1, 2:
+			d = append([]byte{0xfd}, g.Bytes(2)...)
+		case 3:
+			d = append([]byte{0xfe}, g.Bytes(4)...)
+		default:
+			d = append([]byte{0xff}, g.Bytes(8)...)
+		}
+		if g.Chance(1, 8) {
+			d = d[:g.Intn(len(d))] // cut inside the prefix (or empty)
+		} else {
+			d = append(d, g.Bytes(g.Intn(7))...)
+		}
+		var caps []int
+		for j := g.Intn(7); j > 0; j-- {
+			caps = append(caps, g.Pick(0, 0, 0, 1, 2, 3, 7))
+		}
+		checkChunkRead("gen", &chunkCase{Data: d, Caps: caps})
 	}
 }
